@@ -67,7 +67,7 @@ REQUIRED = ['forwards', 'streams_compared', 'bytes_compared',
             'refusals_judged', 'census_checked', 'cut_cases', 'socks_cases',
             'unix_cases', 'early_data_cases', 'pairings_checked',
             'cancel_checked', 'decoy_checked', 'hostile_socks',
-            'extra_listeners', 'implicit_release_cases']
+            'extra_listeners', 'implicit_release_cases', 'socks_pipelined']
 BUDGET_S = {'quick': 300, 'thorough': 3400}
 CASE_TIMEOUT_S = 60
 
@@ -96,7 +96,8 @@ def gen_cases(tier, seed):
                       'order': 'concurrent', 'gate': 0, 'cut': 'before_reply',
                       'cut_mode': 's2c', 'nconn': 1, 'cancel': False,
                       'nlisten': 1, 'explicit_close': False,
-                      'chunk': 'all', 'socks_bad': None, 'cseed': 1})
+                      'chunk': 'all', 'socks_bad': None,
+                      'socks_pipe': False, 'cseed': 1})
     while len(cases) < n:
         kind = rng.choice(KINDS)
         case = {
@@ -118,6 +119,9 @@ def gen_cases(tier, seed):
             'explicit_close': rng.random() < 0.3,
             'chunk': rng.choice(['all', 'record', 'random']),
             'socks_bad': None,
+            # the SOCKS client does not wait for the reply before it sends
+            # its payload (request and data in one write)
+            'socks_pipe': rng.random() < 0.4,
             'cseed': rng.randrange(1 << 30)}
         if kind.startswith('socks') and rng.random() < 0.25:
             case['socks_bad'] = rng.choice(
@@ -280,6 +284,39 @@ class Dest:
             await asyncio.wait_for(self.server.wait_closed(), 30)
         if self.path and os.path.exists(self.path):
             os.unlink(self.path)
+
+
+def _socks_request(kind, host, port):
+    """The whole client side of the SOCKS dialogue as one byte string"""
+
+    if kind == 'socks5':
+        h = host.encode()
+        return b'\x05\x01\x00' + b'\x05\x01\x00\x03' + \
+            bytes([len(h)]) + h + struct.pack('>H', port)
+    if kind == 'socks4':
+        return b'\x04\x01' + struct.pack('>H', port) + \
+            socket.inet_aton('127.0.0.1') + b'user\x00'
+    return b'\x04\x01' + struct.pack('>H', port) + \
+        b'\x00\x00\x00\x01' + b'user\x00' + host.encode() + b'\x00'
+
+
+async def _socks_replies(reader, kind):
+    if kind == 'socks5':
+        if await reader.readexactly(2) != b'\x05\x00':
+            return False
+        r = await reader.readexactly(4)
+        if r[1] != 0:
+            return False
+        if r[3] == 1:
+            await reader.readexactly(6)
+        elif r[3] == 4:
+            await reader.readexactly(18)
+        else:
+            n = (await reader.readexactly(1))[0]
+            await reader.readexactly(n + 2)
+        return True
+    r = await reader.readexactly(8)
+    return r[1] == 0x5a
 
 
 async def _socks_handshake(reader, writer, kind, host, port):
@@ -616,26 +653,40 @@ def run_case(case):
                                     pass
                                 w.close()
                                 return
-                            ok = await _socks_handshake(
-                                r, w, kind, '127.0.0.1',
-                                dests[rec['dest']].addr)
+                            piped = bool(case.get('socks_pipe'))
+                            if piped:
+                                mon['socks_pipelined'] += 1
+                                w.write(_socks_request(
+                                    kind, '127.0.0.1',
+                                    dests[rec['dest']].addr) + up)
+                                ok = await _socks_replies(r, kind)
+                            else:
+                                ok = await _socks_handshake(
+                                    r, w, kind, '127.0.0.1',
+                                    dests[rec['dest']].addr)
                             rec['socks_ok'] = ok
                             if not ok:
                                 w.close()
                                 return
+                            if piped:
+                                up_rest = b''
+                            else:
+                                up_rest = up
                         if case['gate']:
                             mon['early_data_cases'] += 1
+                        if not socks:
+                            up_rest = up
                         if fe == 'dest' and after:
                             # send only after the destination's EOF
                             await _read_all(r, rec)
-                            await _write_pieces(w, up, case['pieces'])
+                            await _write_pieces(w, up_rest, case['pieces'])
                             w.close()
                             return
                         rt = None
                         if fe not in ('client_close', 'client_abort'):
                             rt = asyncio.ensure_future(_read_all(r, rec))
                         try:
-                            await _write_pieces(w, up, case['pieces'])
+                            await _write_pieces(w, up_rest, case['pieces'])
                             if fe == 'client':
                                 w.write_eof()
                             elif fe == 'client_close':
